@@ -54,9 +54,11 @@ PROPS["C02"] = dict(
                "test satisfies its defining inequality at every binary exponent; remove_trailing_zeros (f32 and f64) returns "
                "(n, s) with n * 10^s == significand and n % 10 != 0 for every admissible significand (Verus, on the extracted "
                "code: modular-inverse exact-division test, the 10^8 multiply-and-compare test, rotations). The Dragonbox theorem is assumed.",
-    verus_quick=JEAIII + [_vc("wf_rtz")],
+    verus_quick=JEAIII + [_vc("wf_rtz"), _vc("wf_dbmul")],
     rows_quick=["wf-dragonbox-table", "wf-dragonbox-thresholds", "wf-dragonbox-logs"],
-    assumptions=["ASSUMED: Dragonbox theorem (Jeon 2020): with exact cache rows, exact helper arithmetic and correctly "
+    assumptions=["call-site preconditions of the Dragonbox helpers (1 <= beta < 64, f32: < 32; endpoint shifts non-negative) are "
+                 "discharged for the normal interval by the row unit wf-dragonbox-logs; the shorter-interval call sites are not checked",
+                 "ASSUMED: Dragonbox theorem (Jeon 2020): with exact cache rows, exact helper arithmetic and correctly "
                  "derived thresholds the result is in the rounding interval, shortest and closest",
                  "ASSUMED: Grisu2 theorem for the `compact` writer"],
 )
